@@ -9,7 +9,7 @@ DECLS = [None, '<?xml version="1.0"?>', "<?xml version='1.0' encoding='UTF-8'?>"
 
 def default_style():
     return {"decl": 1, "indent": False, "quote": '"', "empty": "self", "raw_gt": False, "charref": "ascii",
-            "trail": "\n", "pad": False, "tagspace": False, "attrsep": " ", "seed": 0}
+            "trail": "\n", "pad": False, "tagspace": False, "attrsep": " ", "cdata": False, "comments": False, "seed": 0}
 
 
 def library_style():
@@ -30,6 +30,10 @@ def rand_style(rng: random.Random):
         "tagspace": rng.random() < 0.3,
         # white space XML allows between the element name and its attributes (attribute-per-line pretty printers, tabs)
         "attrsep": rng.choice([" ", " ", " ", "\n", "\t", "\r\n", "\n    ", "mix"]),
+        # text spelled as CDATA sections; comments between the children of a message (both are XML a pretty printer, a
+        # templating engine or a person may produce; neither is content)
+        "cdata": rng.random() < 0.2,
+        "comments": rng.random() < 0.2,
         "seed": rng.randrange(1 << 30),
     }
 
@@ -51,7 +55,14 @@ class Speller:
             return "&#x%X;" % ord(ch)
         return "&#%d;" % ord(ch)
 
+    COMMENTS = ["<!---->", "<!-- note -->", "<!-- a > b -->", "<!-- <x y='1'> -->", "<!--\n  two lines\n-->"]
+
     def _text(self, t):
+        if self.s.get("cdata") and t and "]]>" not in t and all(ord(c) < 256 and c != "\r" for c in t) and self.rng.random() < 0.7:
+            if len(t) >= 2 and self.rng.random() < 0.3:
+                k = self.rng.randrange(1, len(t))
+                return f"<![CDATA[{t[:k]}]]><![CDATA[{t[k:]}]]>"
+            return f"<![CDATA[{t}]]>"
         out = []
         for ch in t:
             if ch == "&":
@@ -114,8 +125,13 @@ class Speller:
             return f"{pad}{head}{tail_sp}></{spec['tag']}{tail_sp}>"
         out = [f"{pad}{head}{tail_sp}>"]
         if kids:
+            cm = self.s.get("comments")
             for k in kids:
+                if cm and self.rng.random() < 0.4:
+                    out.append(nl + self.rng.choice(self.COMMENTS))
                 out.append(nl + self.element(k, depth + 1))
+            if cm and self.rng.random() < 0.3:
+                out.append(nl + self.rng.choice(self.COMMENTS))
             out.append(nl + pad)
         else:
             t = self._text(text)
